@@ -64,6 +64,15 @@ def _unbound(pid, v):
     return False
 
 
+@scope("F-SCHEMA-LITERAL-UNDER-STRATEGY")
+def _schema_literal_strategy(pid, v):
+    import json as _json
+    c = v["case"]
+    f = c.get("facts") or {}
+    return (pid == "C06" and v["clause"] == "schema-rejects-serializer-output" and c.get("target") == "strategy"
+            and f.get("keywords") == ["enum"] and "literal_int" in _json.dumps(c.get("desc")))
+
+
 @scope("F-FORMAT-MIXIN-SUBCLASS-FIELDS")
 def _fmt_subclass(pid, v):
     f = (v["case"].get("facts") or {})
